@@ -4,6 +4,7 @@ import (
 	"bytes"
 	"context"
 	"fmt"
+	"os"
 	"runtime/debug"
 	"sort"
 	"strings"
@@ -78,6 +79,10 @@ type call struct {
 	raw         []byte
 	panicMsg    string
 
+	// Injected fault that fired (site and status name), under world.mu.
+	faultFired  string
+	faultStatus string
+
 	collected bool
 	dups      []*call
 	earlyOK   bool
@@ -86,16 +91,18 @@ type call struct {
 // tmpl is the operation list of a COMPOUND after its SEQUENCE, together
 // with the model's view of it.
 type tmpl struct {
-	kind    string
-	desc    string
-	ops     []nfsv4.NfsArgop4
-	atExec  func(c *call)                        // model effects and predictions when the server starts executing
-	predict func(c *call)                        // prediction that must be made right before the directory operation
-	onDone  func(c *call, res []nfsv4.NfsResop4) // verify the reply, update the model
-	parkOK  []string                             // park kinds that make sense for this template
-	stateOp bool                                 // successful execution changes open or lock state
-	expect  []sts                                // acceptable statuses per operation (filled by atExec/predict)
-	data    map[string]any
+	kind     string
+	desc     string
+	ops      []nfsv4.NfsArgop4
+	atExec   func(c *call)                        // model effects and predictions when the server starts executing
+	predict  func(c *call)                        // prediction that must be made right before the directory operation
+	onDone   func(c *call, res []nfsv4.NfsResop4) // verify the reply, update the model
+	parkOK   []string                             // park kinds that make sense for this template
+	faultOK  []string                             // fault sites this template can reach
+	noEffect bool                                 // documented to be refused before anything is touched
+	stateOp  bool                                 // successful execution changes open or lock state
+	expect   []sts                                // acceptable statuses per operation (filled by atExec/predict)
+	data     map[string]any
 }
 
 type fhRec struct {
@@ -117,6 +124,7 @@ type world struct {
 	clk      *simClock
 	logger   *errLogger
 	nfsAlloc *virtual.NFSStatefulHandleAllocator
+	progRNG  *programRNG
 	realRoot virtual.PrepopulatedDirectory
 	rootFH   []byte
 	pool     *nfsv4prog.OpenedFilesPool
@@ -128,6 +136,7 @@ type world struct {
 	violations   []string
 	parks        []*park
 	nextParkID   int
+	creating     *call // request on whose behalf the root directory is inside VirtualOpenChild
 
 	clients  []*clientSim
 	allIncs  []*incM
@@ -145,6 +154,10 @@ type world struct {
 
 	grantedOwners map[string]bool
 	notes         []string
+
+	observer       *clientSim
+	deferQuiescent bool                  // inside an observer sweep: the quiescence invariants are checked once, at its end
+	probeDirty     map[*countLeaf]string // files whose lock table the observer is to sweep, and why
 }
 
 func (w *world) violateLocked(format string, args ...any) {
@@ -153,6 +166,16 @@ func (w *world) violateLocked(format string, args ...any) {
 
 func (w *world) failf(format string, args ...any) {
 	panic(violation{msg: fmt.Sprintf(format, args...)})
+}
+
+// lockLeak reports a lock that is still held at quiescence. The bubble
+// can never drain once a lock is leaked (the requests that are still
+// parked will block on it when they are released, and goroutines blocked
+// on a mutex are not durably blocked), so the violation is printed and the
+// process ends instead of going through rt.Fatalf and shrinking.
+func (w *world) lockLeak(format string, args ...any) {
+	fmt.Printf("VERIF-VIOLATION property=C14 (profile %s): %s\nscript:\n%s", w.p.name, fmt.Sprintf(format, args...), formatScript(w.script))
+	os.Exit(1)
 }
 
 func (w *world) label(l string) { w.labels[l]++ }
@@ -181,7 +204,38 @@ func newWorld(rt *rapid.T, p *profile) *world {
 	if nClients < p.clients[1] && rapid.IntRange(0, 3).Draw(rt, "moreClients") != 0 {
 		nClients++
 	}
-	return newWorldWith(rt, p, seed, nClients)
+	w := newWorldWith(rt, p, seed, nClients)
+	// The server draws the sequence ID that an incarnation's first
+	// CREATE_SESSION has to use at random (eir_sequenceid). Any 32 bit
+	// value is a valid outcome of that, so the harness, which owns the
+	// random number generator, makes some of them lie just below the
+	// wrap-around.
+	for i := 0; i < 6; i++ {
+		v := pick(w, "firstCreateSessionSequence", []int64{-1, -1, -1, 0xFFFFFFFF, 0xFFFFFFFE, 0xFFFFFFFD, 0})
+		w.progRNG.uint32s = append(w.progRNG.uint32s, v)
+	}
+	return w
+}
+
+// programRNG is the random number generator handed to the NFSv4.1
+// program. Uint32 is only used for the initial CREATE_SESSION sequence ID
+// of a new client incarnation; the harness can dictate those values.
+type programRNG struct {
+	detRNG
+	uint32s []int64 // -1: no override
+}
+
+func (r *programRNG) Uint32() uint32 {
+	r.mu.Lock()
+	var v int64 = -1
+	if len(r.uint32s) > 0 {
+		v, r.uint32s = r.uint32s[0], r.uint32s[1:]
+	}
+	r.mu.Unlock()
+	if v >= 0 {
+		return uint32(v)
+	}
+	return r.detRNG.Uint32()
 }
 
 func newWorldWith(rt *rapid.T, p *profile, seed uint64, nClients int) *world {
@@ -198,6 +252,7 @@ func newWorldWith(rt *rapid.T, p *profile, seed uint64, nClients int) *world {
 		excl:         map[string]int{},
 
 		grantedOwners: map[string]bool{},
+		progRNG:       &programRNG{detRNG: detRNG{ctr: seed*7919 + 17}},
 	}
 	w.nfsAlloc = virtual.NewNFSHandleAllocator(&detRNG{ctr: seed * 1000003})
 	setter := func(requested virtual.AttributesMask, attributes *virtual.Attributes) {}
@@ -235,7 +290,7 @@ func newWorldWith(rt *rapid.T, p *profile, seed uint64, nClients int) *world {
 			CaMaxoperations:         maxOperations,
 			CaMaxrequests:           slotsPerSess,
 		},
-		&detRNG{ctr: seed*7919 + 17},
+		w.progRNG,
 		nfsv4.Verifier4{1, 2, 3, 4, 5, 6, 7, 8},
 		w.clk,
 		leaseTime, leaseTime,
@@ -336,12 +391,15 @@ func encodeArgs(ops []nfsv4.NfsArgop4) []byte {
 }
 
 // start runs the COMPOUND of c in its own goroutine and waits for
-// quiescence. It does not look at the result.
+// quiescence. It does not look at the result. A request that cannot
+// block (it is not going to park and does not wait for another request)
+// is run on the calling goroutine instead, which is the same schedule
+// without the hand-over.
 func (w *world) start(c *call) {
 	c.id = len(w.calls)
 	w.calls = append(w.calls, c)
 	ctx := context.WithValue(w.ctx, ctxKey{}, c)
-	go func() {
+	run := func() {
 		var res *nfsv4.Compound4res
 		var panicMsg string
 		func() {
@@ -363,7 +421,15 @@ func (w *world) start(c *call) {
 		w.mu.Lock()
 		c.res, c.raw, c.panicMsg, c.done = res, raw, panicMsg, true
 		w.mu.Unlock()
-	}()
+	}
+	if c.mode != "wait" && !c.plan["io"] && !c.plan["open_before"] && !c.plan["open_after"] {
+		run()
+		if len(c.dups) > 0 {
+			synctest.Wait()
+		}
+		return
+	}
+	go run()
 	synctest.Wait()
 }
 
@@ -388,7 +454,33 @@ func (w *world) collect() {
 		c.collected = true
 		w.finish(c)
 	}
-	w.checkQuiescent()
+	if w.deferQuiescent {
+		// Inside an observer sweep only the locks are probed after every
+		// request, so that a leaked lock is reported before the next
+		// request can block on it.
+		w.checkLocksFree()
+	} else {
+		w.checkQuiescent()
+	}
+}
+
+// checkLocksFree: the TryLock probes alone.
+func (w *world) checkLocksFree() {
+	w.mu.Lock()
+	viol := append([]string(nil), w.violations...)
+	w.mu.Unlock()
+	if len(viol) > 0 {
+		w.failf("%s", strings.Join(viol, "\n"))
+	}
+	if _, ok := nfsv4prog.VerifStateCounts(w.prog); !ok {
+		w.lockLeak("the lock of the NFSv4.1 program or of a client incarnation without a request in flight is still held at quiescence: a request returned without releasing it (VerifStateCounts could not acquire it)")
+	}
+	if _, ok := w.pool.VerifUseCount(); !ok {
+		w.lockLeak("the lock of the opened files pool or the byte-range lock table lock of an opened file is still held at quiescence: a request returned without releasing it")
+	}
+	if !w.nfsAlloc.VerifNFSHandlePoolLockIsFree() {
+		w.lockLeak("the lock of the NFS handle pool is still held at quiescence: a call returned without releasing it")
+	}
 }
 
 func statusOf(res *nfsv4.Compound4res) string {
@@ -438,6 +530,13 @@ var statusNames = map[nfsv4.Nfsstat4]string{
 	nfsv4.NFS4ERR_NOFILEHANDLE:        "NOFILEHANDLE",
 	nfsv4.NFS4ERR_SEQUENCE_POS:        "SEQUENCE_POS",
 	nfsv4.NFS4ERR_MINOR_VERS_MISMATCH: "MINOR_VERS_MISMATCH",
+	nfsv4.NFS4ERR_IO:                  "IO",
+	nfsv4.NFS4ERR_ACCESS:              "ACCESS",
+	nfsv4.NFS4ERR_RECLAIM_BAD:         "RECLAIM_BAD",
+	nfsv4.NFS4ERR_NO_GRACE:            "NO_GRACE",
+	nfsv4.NFS4ERR_NOTSUPP:             "NOTSUPP",
+	nfsv4.NFS4ERR_SHARE_DENIED:        "SHARE_DENIED",
+	nfsv4.NFS4ERR_XDEV:                "XDEV",
 }
 
 // ---------------------------------------------------------------- lease model
@@ -488,6 +587,7 @@ func (w *world) modelClose(o *openM, why string) {
 		w.modelFreeLock(l, why, true)
 	}
 	o.closed = true
+	w.markProbe(o.leaf, strings.Fields(why)[0])
 	delete(o.inc.opens, o.owner+"|"+string(o.fh))
 	delete(o.inc.byOther, o.other)
 	w.deadSIDs = append(w.deadSIDs, sidRec{sid: mkStateID(o.seq, o.other), fh: o.fh, why: why})
@@ -507,6 +607,7 @@ func (w *world) modelFreeLock(l *lockM, why string, unlock bool) {
 		}
 	}
 	l.freed = true
+	w.markProbe(l.open.leaf, strings.Fields(why)[0])
 	delete(l.open.locks, l.owner)
 	delete(l.open.inc.byOther, l.other)
 	w.deadSIDs = append(w.deadSIDs, sidRec{sid: mkStateID(l.seq, l.other), fh: l.open.fh, why: why})
@@ -632,7 +733,7 @@ func (w *world) modelCounts() map[string]int {
 func (w *world) checkCounts() {
 	got, ok := nfsv4prog.VerifStateCounts(w.prog)
 	if !ok {
-		w.failf("C18/C14: a lock of the NFSv4.1 program is still held at quiescence (VerifStateCounts could not acquire it)")
+		w.lockLeak("the lock of the NFSv4.1 program or of a client incarnation without a request in flight is still held at quiescence: a request returned without releasing it (VerifStateCounts could not acquire it)")
 	}
 	exp := w.modelCounts()
 	for _, k := range []string{"clients", "client_incarnations", "sessions", "hold_count", "idle_client_incarnations", "open_owners", "open_owner_files", "lock_owner_files"} {
@@ -645,7 +746,7 @@ func (w *world) checkCounts() {
 	}
 	poolCount, ok := w.pool.VerifOpenedCount()
 	if !ok {
-		w.failf("C18/C14: the lock of the opened files pool is still held at quiescence")
+		w.lockLeak("the lock of the opened files pool is still held at quiescence: a request returned without releasing it")
 	}
 	open := map[*countLeaf]bool{}
 	for _, o := range w.allOpens {
@@ -656,8 +757,11 @@ func (w *world) checkCounts() {
 	if poolCount != len(open) {
 		w.failf("C18: the opened files pool tracks %d files, but the replies imply %d files are open", poolCount, len(open))
 	}
+	if _, ok := w.pool.VerifUseCount(); !ok {
+		w.lockLeak("the lock of the opened files pool or the byte-range lock table lock of an opened file is still held at quiescence: a request returned without releasing it")
+	}
 	if !w.nfsAlloc.VerifNFSHandlePoolLockIsFree() {
-		w.failf("C18/C14: the lock of the NFS handle pool is still held at quiescence")
+		w.lockLeak("the lock of the NFS handle pool is still held at quiescence: a call returned without releasing it")
 	}
 }
 
